@@ -7,6 +7,7 @@
 """
 Dict field.
 """
+import copy
 from typing import Any, Dict, List, Optional, Sequence, Tuple, TypeVar, Union
 
 from ..core import AnyField, Config, Field, ValidationError
@@ -225,6 +226,10 @@ class DictField(Field):
 
     def __setdefault__(self, cfg: Config) -> None:
         default = self.default
+        if default is not None:
+            # each configuration gets its own copy of the declared default, at every depth:
+            # mutable values (lists, nested dicts) would otherwise be shared by all configurations
+            default = copy.deepcopy(default)
         if isinstance(default, dict) and self._use_proxy:
             default = DictProxy(cfg, self, default)
         elif default is not None:
